@@ -89,6 +89,8 @@ def piece_elem(p: Piece, k):
         return p.a[p.lo + k]
     if p.kind == "rep":
         return p.a
+    if p.kind == "reps":
+        k = k % len(p.items)
     # literal: chain of ifs
     r = p.items[-1]
     for idx in range(len(p.items) - 2, -1, -1):
@@ -132,6 +134,9 @@ def repeat(vs: VSeq, n) -> VSeq:
             return VSeq(vs.elem, [Piece("rep", a=p.items[0], hi=z3.simplify(n))], is_str=vs.is_str)
         if p.kind == "rep":
             return VSeq(vs.elem, [Piece("rep", a=p.a, hi=z3.simplify(p.hi * n))], is_str=vs.is_str)
+    if all(p.kind == "lit" for p in vs.pieces):
+        items = [it for p in vs.pieces for it in p.items]
+        return VSeq(vs.elem, [Piece("reps", items=items, hi=z3.simplify(n))], is_str=vs.is_str)
     nv = z3.simplify(n)
     if z3.is_int_value(nv) and nv.as_long() <= 8:
         r = VSeq(vs.elem, [], is_str=vs.is_str)
@@ -176,6 +181,11 @@ def piece_cells(p: Piece, facts: list):
         return pcell(p.a, p.hi) - pcell(p.a, p.lo)
     if p.kind == "rep":
         return p.hi * W(p.a)
+    if p.kind == "reps":
+        unit = z3.IntVal(0)
+        for it in p.items:
+            unit = unit + W(it)
+        return p.hi * unit
     r = z3.IntVal(0)
     for it in p.items:
         r = r + W(it)
@@ -251,6 +261,14 @@ def seq_eq(a: VSeq, b: VSeq):
     # structurally identical ropes
     if len(a.pieces) == len(b.pieces) and all(_same_piece(p, q) for p, q in zip(a.pieces, b.pieces)):
         return z3.BoolVal(True)
+    # same shape up to the repetition counts of `reps` pieces (unit non-empty): equal iff the counts agree
+    if len(a.pieces) == len(b.pieces) and all(
+        _same_piece(p, q) or (p.kind == q.kind == "reps" and len(p.items) == len(q.items) and len(p.items) > 0
+                              and all(z3.simplify(x).eq(z3.simplify(y)) for x, y in zip(p.items, q.items)))
+        for p, q in zip(a.pieces, b.pieces)
+    ) and sum(1 for p in a.pieces if p.kind == "reps") == 1:
+        conds = [z3.If(p.hi > 0, p.hi, 0) == z3.If(q.hi > 0, q.hi, 0) for p, q in zip(a.pieces, b.pieces) if p.kind == "reps" and not _same_piece(p, q)]
+        return z3.And(*conds) if conds else z3.BoolVal(True)
     # a literal of known length against a symbolic rope: pointwise
     for x, y in ((a, b), (b, a)):
         nx = z3.simplify(x.length())
@@ -267,6 +285,8 @@ def seq_eq(a: VSeq, b: VSeq):
 def _same_piece(p: Piece, q: Piece) -> bool:
     if p.kind != q.kind:
         return False
+    if p.kind == "reps":
+        return len(p.items) == len(q.items) and all(z3.simplify(x).eq(z3.simplify(y)) for x, y in zip(p.items, q.items)) and z3.simplify(p.hi).eq(z3.simplify(q.hi))
     if p.kind == "view":
         return p.a.eq(q.a) and z3.simplify(p.lo).eq(z3.simplify(q.lo)) and z3.simplify(p.hi).eq(z3.simplify(q.hi))
     if p.kind == "rep":
